@@ -14,10 +14,11 @@ Proved here
   sorted maps, i.e. is a legal input of the next theorem.
 * `C08_applyToTrie_order` — over a correct trie, `applyToTrie` gives the same trie for every
   iteration order of the Go maps (and never panics).
-* `C08_refines_partial`, `C08_commit_outermost_partial` — on the transactional key-value fragment
-  (put / delete / get on main storage and on child storage, start / commit / rollback at any
-  depth), provided no string is used both as a main key and as a child-trie key and no main key
-  lies below `:child_storage:default:`, every observable of the model over a correct trie equals
+* `C08_refines_partial`, `C08_commit_outermost_partial` — on the fragment put / del / get / next /
+  ents / clr (main storage), cput / cdel / cget / cclr / cnext / ckeys / kill (child tries), start /
+  commit / rollback at any depth, provided no string is used both as a main key and as a child-trie
+  key, no main key or cleared prefix touches `:child_storage:default:`, and no child trie is written
+  after it was deleted in the same transaction, every observable of the model over a correct trie equals
   the specification's, every transaction level has exactly the specification's logical content,
   and the outermost commit leaves exactly the specification's committed state (same entries, same
   child tries, hence the same root for any root function); `C08_commit_direct_partial`: it is the
@@ -68,13 +69,19 @@ theorem C08_applyToTrie_order (Hc Hm : Entries → Bytes) (b : Logical) (d : Dif
 theorem C08_sortedOrder_isOrder (d : Diff) (hd : d.SortedD) : IsOrderOf d d.sortedOrder :=
   sortedOrder_isOrder hd.wf
 
-/-! ### refinement on the transactional key-value fragment -/
+/-! ### refinement on the fragment `OpOK` / `StepOK` -/
 
-/-- Every observable of the model over a correct trie equals the specification's. -/
+/-- the initial states -/
+def t0 : TS Logical := { base := Logical.empty, txs := [] }
+def s0 : SS := { back := Logical.empty, stack := [] }
+
+/-- Every observable of the model over a correct trie equals the specification's, for every history
+    whose steps are in the fragment (`SafeRun`: `OpOK` for each operation — put / del / get / next /
+    ents / clr on main storage, cput / cdel / cget / cclr / cnext / ckeys / kill on child tries,
+    start / commit / rollback — with the exact exclusions stated at `OpOK` and `StepOK`). -/
 theorem C08_refines_partial (Hc Hm : Entries → Bytes) (D : Dumper Logical) (CK : Bytes → Bool)
-    (ops : List Op) (hops : ∀ op ∈ ops, OpOK CK op) :
-    (runTS (idealBackend Hc Hm) D Diff.sortedOrder { base := Logical.empty, txs := [] } ops).2 =
-      (specRun Hc Hm { back := Logical.empty, stack := [] } ops).2 :=
+    (ops : List Op) (hops : SafeRun Hc Hm D CK t0 ops) :
+    (runTS (idealBackend Hc Hm) D Diff.sortedOrder t0 ops).2 = (specRun Hc Hm s0 ops).2 :=
   (sim_run Hc Hm D (sim_init CK) ops hops).2
 
 /-- Contents: after any history of the fragment the committed trie IS the specification's
@@ -82,43 +89,71 @@ theorem C08_refines_partial (Hc Hm : Entries → Bytes) (D : Dumper Logical) (CK
     particular the outermost commit leaves the same entries and child tries as the specification
     (which applies the operations directly to a copy), hence the same root. -/
 theorem C08_commit_outermost_partial (Hc Hm : Entries → Bytes) (D : Dumper Logical)
-    (CK : Bytes → Bool) (ops : List Op) (hops : ∀ op ∈ ops, OpOK CK op) :
-    let t := (runTS (idealBackend Hc Hm) D Diff.sortedOrder { base := Logical.empty, txs := [] } ops).1
-    let s := (specRun Hc Hm { back := Logical.empty, stack := [] } ops).1
+    (CK : Bytes → Bool) (ops : List Op) (hops : SafeRun Hc Hm D CK t0 ops) :
+    let t := (runTS (idealBackend Hc Hm) D Diff.sortedOrder t0 ops).1
+    let s := (specRun Hc Hm s0 ops).1
     t.base = s.back ∧ t.txs.map (effL t.base) = s.stack ∧
       (idealBackend Hc Hm).hash t.base = Hm (Logical.view Hc s.back) ∧
       (idealBackend Hc Hm).entries t.base = (Logical.view Hc s.back).map (fun e => (e.1, some e.2)) := by
   intro t s
-  have h := (sim_run Hc Hm D (sim_init CK) ops hops).1
-  refine ⟨h.back.symm, h.stack.symm, ?_, ?_⟩
+  have h : Sim CK t s := (sim_run Hc Hm D (sim_init CK) ops hops).1
+  have hb : s.back = t.base := h.back
+  refine ⟨hb.symm, h.stack.symm, ?_, ?_⟩
   · show Hm (Logical.view Hc t.base) = Hm (Logical.view Hc s.back)
-    rw [h.back]
+    rw [hb]
   · show (Logical.view Hc t.base).map _ = _
-    rw [h.back]
+    rw [hb]
+
+/-- A history without child-trie deletion and made of the key-value operations only (`OpOK0`) is in
+    the fragment whatever the states are: the static form of the hypothesis. -/
+theorem C08_safe_of_static (Hc Hm : Entries → Bytes) (D : Dumper Logical) (CK : Bytes → Bool)
+    (ops : List Op) (hops : ∀ op ∈ ops, OpOK0 CK op) : SafeRun Hc Hm D CK t0 ops :=
+  safe_of_ok0 Hc Hm D ops hops t0 (fun _ h => by simp [t0] at h)
 
 /-- Committing the outermost transaction gives exactly the state (contents, child tries, hence
     root) that applying the same operations directly, without a transaction, gives — after any
-    history `pre` of the fragment that ends with no transaction open. -/
+    history `pre` of the key-value fragment that ends with no transaction open.  (With the ordered
+    reads in `xs` the statement would be false for the specification itself: inside a transaction
+    the child-root entries of the main trie are those of the last commit.) -/
 theorem C08_commit_direct_partial (Hc Hm : Entries → Bytes) (D : Dumper Logical) (CK : Bytes → Bool)
-    (pre xs : List Op) (hpre : ∀ op ∈ pre, OpOK CK op) (hxs : ∀ op ∈ xs, OpOK CK op)
+    (pre xs : List Op) (hpre : ∀ op ∈ pre, OpOK0 CK op) (hxs : ∀ op ∈ xs, OpOK0 CK op)
     (hplain : ∀ op ∈ xs, isTx op = false)
-    (hdepth : (runTS (idealBackend Hc Hm) D Diff.sortedOrder
-      { base := Logical.empty, txs := [] } pre).1.txs = []) :
-    (runTS (idealBackend Hc Hm) D Diff.sortedOrder { base := Logical.empty, txs := [] }
-        (pre ++ ([Op.start] ++ xs ++ [Op.commit]))).1 =
-      (runTS (idealBackend Hc Hm) D Diff.sortedOrder { base := Logical.empty, txs := [] }
-        (pre ++ xs)).1 := by
+    (hdepth : (runTS (idealBackend Hc Hm) D Diff.sortedOrder t0 pre).1.txs = []) :
+    (runTS (idealBackend Hc Hm) D Diff.sortedOrder t0 (pre ++ ([Op.start] ++ xs ++ [Op.commit]))).1 =
+      (runTS (idealBackend Hc Hm) D Diff.sortedOrder t0 (pre ++ xs)).1 := by
   rw [runTS_append, runTS_append (l1 := pre)]
-  exact commit_direct Hc Hm D (sim_run Hc Hm D (sim_init CK) pre hpre).1 hdepth xs hxs hplain
+  exact commit_direct Hc Hm D
+    (sim_run Hc Hm D (sim_init CK) pre (C08_safe_of_static Hc Hm D CK pre hpre)).1 hdepth xs hxs hplain
 
-/-- the fragment is not empty: main and child keys kept apart by a first byte -/
-example : ∀ op ∈ [Op.put [1] (some [2]), Op.start, Op.cput [0x4b, 1] [1] (some [3]), Op.start,
-    Op.del [1], Op.rollback, Op.cdel [0x4b, 1] [1], Op.commit, Op.get [1], Op.cget [0x4b, 1] [1]],
-    OpOK (fun k => k.head? == some 0x4b) op := by
-  intro op h
-  simp only [List.mem_cons, List.mem_nil_iff, or_false] at h
-  rcases h with rfl | rfl | rfl | rfl | rfl | rfl | rfl | rfl | rfl | rfl <;>
-    simp [OpOK, Logical.isChildKey, childPrefix, List.isPrefixOf]
+/-- the fragment is not empty: a history with every kind of operation, main and child keys kept
+    apart by a first byte (checked by evaluation of `SafeRun`) -/
+def demoOps : List Op :=
+  [Op.put [1] (some [2]), Op.put [1, 5] (some [3]), Op.cput [0x4b, 1] [1] (some [3]), Op.start,
+   Op.clr [1], Op.next [], Op.ents, Op.cput [0x4b, 1] [2] none, Op.start, Op.kill [0x4b, 1],
+   Op.ckeys [0x4b, 1] [], Op.rollback, Op.cclr [0x4b, 1] [1], Op.cnext [0x4b, 1] [], Op.del [1],
+   Op.cdel [0x4b, 1] [2], Op.commit, Op.get [1], Op.cget [0x4b, 1] [1]]
+
+instance (CK : Bytes → Bool) (op : Op) : Decidable (OpOK CK op) := by
+  cases op <;> unfold OpOK <;> infer_instance
+
+instance (CK : Bytes → Bool) (t : TS Logical) (op : Op) : Decidable (StepOK CK t op) := by
+  unfold StepOK
+  cases op <;> cases t.txs <;> infer_instance
+
+def safeRunB (Hc Hm : Entries → Bytes) (D : Dumper Logical) (CK : Bytes → Bool) :
+    TS Logical → List Op → Bool
+  | _, [] => true
+  | t, op :: r => decide (StepOK CK t op) &&
+      safeRunB Hc Hm D CK (stepTS (idealBackend Hc Hm) D Diff.sortedOrder t op).1 r
+
+theorem safeRunB_sound (Hc Hm : Entries → Bytes) (D : Dumper Logical) (CK : Bytes → Bool)
+    (ops : List Op) : ∀ t, safeRunB Hc Hm D CK t ops = true → SafeRun Hc Hm D CK t ops := by
+  induction ops with
+  | nil => intro _ _; trivial
+  | cons op r ih =>
+    intro t h
+    simp only [safeRunB, Bool.and_eq_true, decide_eq_true_eq] at h
+    exact ⟨h.1, ih _ h.2⟩
 
 /-! ### outside the fragment the code deviates (one witness per known finding) -/
 
@@ -126,6 +161,9 @@ example : ∀ op ∈ [Op.put [1] (some [2]), Op.start, Op.cput [0x4b, 1] [1] (so
 def H0 : Entries → Bytes := fun _ => []
 
 def D0 : Dumper Logical := ⟨fun _ => []⟩
+
+example : SafeRun H0 H0 D0 (fun k => k.head? == some 0x4b) t0 demoOps :=
+  safeRunB_sound _ _ _ _ _ _ (by decide)
 
 def valOf : Out → Option (Option Bytes)
   | .val v => some v
